@@ -1,2 +1,269 @@
-// Package c17: monitor for property C17 (see DESIGN.md section 2).
+// Package c17: appendable files (singleapp, multiapp) behave as a persistent byte log.
+//
+// Model: a []byte (uncompressed) or a list of (entry offset, payload) pairs
+// (compressed: reads are addressed at entry offsets) plus the user metadata.
+// PRNG sequences of Append / ReadAt / SetOffset / Flush / Sync / DiscardUpto /
+// SwitchToReadOnlyMode / Close+reopen / Copy run against the real code with
+// PRNG configurations; every reply is compared with the model.
 package c17
+
+import (
+	"errors"
+	"fmt"
+	"math/rand/v2"
+	"os"
+	"time"
+	"runtime"
+	"runtime/pprof"
+	"sync"
+	"sync/atomic"
+
+	"github.com/codenotary/immudb/embedded/appendable"
+
+	"verifharness/internal/fw"
+	"verifharness/internal/hook"
+)
+
+func init() { fw.RegisterMonitor("C17", "exploration", Run) }
+
+var errInjected = errors.New("c17: injected I/O error")
+
+// ---- per-goroutine fault plan (the verifhook handler is process-wide) ----
+
+type faultState struct {
+	armed bool
+	skip  int    // fail the (skip+1)-th matching Fault call
+	site  string // "" = any site
+	fired bool
+	site2 string // site that fired
+	calls int
+}
+
+var faultPlans sync.Map // goroutine id -> *faultState
+
+func goid() uint64 {
+	var buf [64]byte
+	n := runtime.Stack(buf[:], false)
+	var id uint64
+	for _, c := range buf[10:n] {
+		if c < '0' || c > '9' {
+			break
+		}
+		id = id*10 + uint64(c-'0')
+	}
+	return id
+}
+
+var faultCalls atomic.Int64
+
+func faultFn(site string, _ uint64) error {
+	faultCalls.Add(1)
+	v, ok := faultPlans.Load(goid())
+	if !ok {
+		return nil
+	}
+	fs := v.(*faultState) // only touched by its own goroutine
+	fs.calls++
+	if !fs.armed || (fs.site != "" && fs.site != site) {
+		return nil
+	}
+	if fs.skip > 0 {
+		fs.skip--
+		return nil
+	}
+	fs.armed = false
+	fs.fired = true
+	fs.site2 = site
+	return errInjected
+}
+
+// ---- configuration ----
+
+type config struct {
+	Multi    bool   `json:"multi"`
+	FileSize int    `json:"file_size"` // multiapp chunk size
+	Prealloc bool   `json:"prealloc"`
+	PreSize  int    `json:"prealloc_size"` // singleapp only
+	Comp     int    `json:"compression_format"`
+	Level    int    `json:"compression_level"`
+	Meta     []byte `json:"metadata"`
+	Faults   bool   `json:"faults"`
+	Conc     bool   `json:"concurrent_readers"`
+	// runtime options (not persisted; redrawn on every reopen)
+	WBuf    int  `json:"write_buffer"`
+	RBuf    int  `json:"read_buffer"`
+	Retry   bool `json:"retryable_sync"`
+	Auto    bool `json:"auto_sync"`
+	MaxOpen int  `json:"max_opened_files"`
+}
+
+func pick(r *rand.Rand, xs ...int) int { return xs[r.IntN(len(xs))] }
+
+func logUniform(r *rand.Rand, lo, hi int) int {
+	// uniform in the exponent, so small and large sizes are both frequent
+	if lo >= hi {
+		return lo
+	}
+	bitsLo, bitsHi := 0, 0
+	for 1<<bitsLo < lo {
+		bitsLo++
+	}
+	for 1<<bitsHi < hi {
+		bitsHi++
+	}
+	b := bitsLo + r.IntN(bitsHi-bitsLo+1)
+	v := 1 << b
+	switch r.IntN(4) {
+	case 0: // exact power of two
+	case 1:
+		v += r.IntN(v/2 + 1)
+	case 2:
+		v -= r.IntN(v/4 + 1)
+	default:
+		v += 1 - r.IntN(3)
+	}
+	if v < lo {
+		v = lo
+	}
+	if v > hi {
+		v = hi
+	}
+	return v
+}
+
+func drawRuntime(r *rand.Rand, cf *config) {
+	cf.WBuf = logUniform(r, 16, 8192)
+	cf.RBuf = logUniform(r, 1, 8192)
+	cf.Retry = r.IntN(2) == 0
+	cf.Auto = r.IntN(2) == 0
+	if cf.Comp != appendable.NoCompression && cf.Retry && !cf.Auto {
+		// retryable sync without auto-sync makes Append fail with ErrBufferFull in
+		// the middle of an entry; a half-written compressed entry has no defined
+		// read address, so that combination is only driven uncompressed
+		cf.Auto = true
+	}
+	cf.MaxOpen = 1 + r.IntN(3)
+}
+
+func drawConfig(r *rand.Rand, i int, thorough bool) config {
+	var cf config
+	cf.Multi = r.IntN(3) > 0
+	cf.FileSize = logUniform(r, 64, 65536)
+	switch {
+	case r.IntN(4) == 0:
+		cf.Comp = 1 + r.IntN(4)
+	default:
+		cf.Comp = appendable.NoCompression
+	}
+	cf.Level = pick(r, appendable.BestSpeed, appendable.BestCompression, appendable.DefaultCompression, appendable.HuffmanOnly)
+	cf.Prealloc = r.IntN(4) == 0
+	if cf.Prealloc && !cf.Multi {
+		cf.PreSize = logUniform(r, 64, 16384)
+	}
+	switch r.IntN(6) {
+	case 0:
+		cf.Meta = nil
+	case 1:
+		cf.Meta = []byte{}
+	default:
+		cf.Meta = make([]byte, 1+r.IntN(200))
+		for j := range cf.Meta {
+			cf.Meta[j] = byte(r.IntN(256))
+		}
+	}
+	cf.Faults = r.IntN(5) == 0
+	cf.Conc = r.IntN(5) == 0
+	drawRuntime(r, &cf)
+	return cf
+}
+
+func (cf *config) kind() string {
+	k := "single"
+	if cf.Multi {
+		k = "multi"
+	}
+	if cf.Comp != appendable.NoCompression {
+		k += "+comp"
+	}
+	return k
+}
+
+// ---- driver ----
+
+func Run(c *fw.Ctx) {
+	c.Rule = "PRNG operation sequences against singleapp/multiapp under PRNG configurations (chunk 64B-64KiB, write buffer 16B-8KiB, retryable x auto sync, prealloc, 5 compression formats, MaxOpenedFiles 1-3, injected write/fsync errors, concurrent readers); every reply is compared with a []byte model; an evaluation is one compared reply; distinct = (appendable kind x operation x observed buffer state x position relative to chunk boundary / write buffer x outcome)"
+	c.Assume("after a rewind (SetOffset below bytes already written to a file) or with preallocated files the physical files keep bytes beyond the logical end: in those states only bytes inside the model are judged, not the size seen by a reopen nor what a read beyond the end returns; the harness re-issues SetOffset(model size) after such a reopen, as embedded/store does")
+	c.Assume("compressed appendables: reads are issued at entry offsets with a buffer no longer than the entry (multiapp) and SetOffset/DiscardUpto only at entry offsets; a compressed chunk may exceed the chunk size, the next entry then starts at the next chunk's base offset")
+	c.Assume("Flush or Sync succeeds before every Close; bytes below the highest DiscardUpto offset are not judged; SetOffset is not issued below it")
+	c.Assume("injected errors (sites singleapp.write, singleapp.sync) are one-shot; the failed operation is retried without faults and must then succeed; after a failed Append the model is resynchronised from Size() (which must lie between the acknowledged and the requested byte count)")
+	c.Assume("reader goroutines pick their ranges inside the length published by the writer, so the concrete ranges depend on the schedule; the writer's operations do not")
+
+	h := hook.Install(&hook.Config{Seed: c.Seed, FaultFn: faultFn})
+	defer hook.Uninstall()
+
+	nseq := c.N(300, 9000)
+	if raceBuild {
+		nseq = c.N(40, 600) // prefix of the same list
+		c.Note("race build: prefix of the sequence list only")
+	}
+	nops := 300
+	workers := runtime.GOMAXPROCS(0)
+	if workers > 16 {
+		workers = 16
+	}
+	if workers < 2 {
+		workers = 2
+	}
+
+	if pf := os.Getenv("VERIF_C17_PROF"); pf != "" {
+		if f, err := os.Create(pf); err == nil {
+			pprof.StartCPUProfile(f)
+			defer pprof.StopCPUProfile()
+		}
+	}
+	only := -1 // VERIF_C17_ONLY=<n>: run one sequence of the list (debugging aid; the list itself is unchanged)
+	if v := os.Getenv("VERIF_C17_ONLY"); v != "" {
+		fmt.Sscanf(v, "%d", &only)
+	}
+	var next atomic.Int64
+	var wg sync.WaitGroup
+	for w := 0; w < workers; w++ {
+		wg.Add(1)
+		go func() {
+			defer wg.Done()
+			id := goid()
+			fs := &faultState{}
+			faultPlans.Store(id, fs)
+			defer faultPlans.Delete(id)
+			for {
+				i := int(next.Add(1)) - 1
+				if i >= nseq {
+					return
+				}
+				if only >= 0 && i != only {
+					continue
+				}
+				r := fw.NewRand(c.Seed, fmt.Sprintf("c17/seq/%d", i))
+				cf := drawConfig(r, i, c.Thorough())
+				s := newSeq(c, i, r, cf, fs)
+				t0 := time.Now()
+				s.run(nops)
+				if os.Getenv("VERIF_C17_DEBUG") != "" { // diagnostics only; never part of a verdict
+					fmt.Fprintf(os.Stderr, "seq %d %.2fs ops=%d %s conc=%v\n", i, time.Since(t0).Seconds(), s.opNo.Load(), s.cfString(), cf.Conc)
+				}
+			}
+		}()
+	}
+	wg.Wait()
+
+	hits := h.Hits()
+	c.Set("fault_site_calls", map[string]uint64{
+		"singleapp.write": hits["fault:singleapp.write"],
+		"singleapp.sync":  hits["fault:singleapp.sync"],
+	})
+	c.Set("sequences", nseq)
+	c.Set("ops_per_sequence", nops)
+	if hits["fault:singleapp.write"] == 0 || hits["fault:singleapp.sync"] == 0 {
+		c.Inconclusive("fault sites singleapp.write / singleapp.sync were never reached: hooks not compiled in?")
+	}
+}
